@@ -108,7 +108,10 @@ Families ==
                    h |-> e1 \o e2 \o rz \o <<Ev("cha", <<x + 1>>)>>] :
                    e1 \in TabEdits(g[1]), e2 \in { <<>>, <<Ev("cha", <<g[1] - 3>>), Ev("hts", <<>>)>> },
                    rz \in { <<>>, <<Ev("resize", <<-1, Max2(1, g[1] - 7)>>)>>, <<Ev("resize", <<-1, g[1] + 9>>)>>,
-                            <<EvM("sm", <<3>>, TRUE)>>, <<EvM("sm", <<3>>, TRUE), EvM("rm", <<3>>, TRUE)>> },
+                            <<EvM("sm", <<3>>, TRUE)>>, <<EvM("sm", <<3>>, TRUE), EvM("rm", <<3>>, TRUE)>>,
+                            \* an edit AFTER the width change (stops beyond the right edge are still in the set then)
+                            <<Ev("resize", <<-1, Max2(1, g[1] - 7)>>), Ev("cha", <<9>>), Ev("tbc", <<0>>)>>,
+                            <<Ev("resize", <<-1, Max2(1, g[1] - 7)>>), Ev("cha", <<4>>), Ev("hts", <<>>)>> },
                    x \in ColsOfInterest(g[1]) } : g \in Geoms }
     [] Model \in {"C06", "C07", "C13"} ->
          UNION { { [c |-> g[1], l |-> g[2],
@@ -116,10 +119,16 @@ Families ==
                          \o SetRegion(m) \o SetOrigin(d) \o PlaceWrap(g[1], m, d, y, x, 122)] :
                    m \in Regions(g[2]), d \in BOOLEAN, sparse \in BOOLEAN,
                    \* the current rendition and reverse-video mode decide what erased / inserted blanks look like
+                   \* (C06 also: a row of explicit plain blanks under reverse video - they differ from never-written cells there)
                    rend \in (IF Model = "C06" THEN { <<Ev("sgr", <<44, 1>>)>>, <<EvM("sm", <<5>>, TRUE), Ev("sgr", <<27>>)>> }
                              ELSE { <<Ev("sgr", <<44, 1>>)>>, <<>>, <<EvM("sm", <<5>>, TRUE)>>, <<EvM("sm", <<5>>, TRUE), Ev("sgr", <<27>>)>>,
                                     <<Ev("sgr", <<7, 4>>)>> }),
                    y \in 0..(g[2] - 1), x \in {0, g[1] \div 2, g[1] - 1, g[1]} } : g \in Geoms }
+         \cup (IF Model # "C06" THEN {} ELSE
+               UNION { { [c |-> g[1], l |-> g[2],
+                          h |-> Fill(g[1], g[2]) \o <<EvM("sm", <<5>>, TRUE), Ev("sgr", <<27>>), Ev("cup", <<2, 1>>), Ev("el", <<2>>), Ev("cup", <<1, 1>>), Ev("ech", <<1>>)>>
+                                \o SetRegion(m) \o PlaceWrap(g[1], m, FALSE, y, 0, 122)] :
+                          m \in Regions(g[2]), y \in 0..(g[2] - 1) } : g \in Geoms })
     [] Model = "C08" ->
          { [c |-> 2, l |-> 1, h |-> hh] :
            hh \in { <<>>, <<Ev("sgr", <<1, 31, 44>>)>>, <<Ev("sgr", <<3, 4, 5, 7, 9, 97, 107>>)>>,
@@ -133,9 +142,10 @@ Families ==
                    y \in 0..(g[2] - 1), x \in {0, g[1] - 1, g[1]} } : g \in Geoms }
     [] Model = "C04" ->
          UNION { { [c |-> g[1], l |-> g[2],
-                   h |-> (CASE v = 0 -> Fill(g[1], g[2]) [] v = 1 -> FillSparse(g[1], g[2]) [] v = 2 -> FillWide(g[1], g[2]))
+                   h |-> (CASE v = 0 -> Fill(g[1], g[2]) [] v = 1 -> FillSparse(g[1], g[2]) [] v = 2 -> FillWide(g[1], g[2])
+                                [] v = 3 -> FillWide(g[1], g[2]) \o << Ev("cup", <<1, 1>>), Ev("dch", <<1>>) >>)   \* the placeholder half now in column 0
                          \o <<Ev("sgr", <<35, 4>>)>> \o mm \o SetRegion(m) \o PlaceWrap(g[1], m, FALSE, y, x, 122)] :
-                   v \in 0..2, m \in {<<>>} \cup (IF g[2] >= 3 THEN {<<0, 1>>, <<1, 2>>} ELSE IF g[2] = 2 THEN {<<0, 1>>} ELSE {}),
+                   v \in 0..3, m \in {<<>>} \cup (IF g[2] >= 3 THEN {<<0, 1>>, <<1, 2>>} ELSE IF g[2] = 2 THEN {<<0, 1>>} ELSE {}),
                    mm \in { <<>>, <<EvM("rm", <<7>>, TRUE)>>, <<EvM("sm", <<4>>, FALSE)>>,
                             <<EvM("rm", <<7>>, TRUE), EvM("sm", <<4>>, FALSE)>>, <<EvM("sm", <<20>>, FALSE)>> },
                    y \in 0..(g[2] - 1), x \in 0..g[1] } : g \in Geoms }
@@ -144,7 +154,12 @@ Families ==
                    hh \in { <<>>, <<Ev("sgr", <<1, 32, 45>>)>>,
                             <<Ev("decstbm", <<2, 3>>)>>, <<Ev("decstbm", <<1, 2>>), EvM("sm", <<6>>, TRUE)>>,
                             <<EvM("sm", <<5>>, TRUE), Ev("sgr", <<27>>)>>, <<EvM("sm", <<3>>, TRUE), EvS("draw", <<113, 114>>)>>,
-                            <<EvM("rm", <<25, 7>>, TRUE), EvM("sm", <<4, 20>>, FALSE)>> } } : g \in Geoms }
+                            <<EvM("rm", <<25, 7>>, TRUE), EvM("sm", <<4, 20>>, FALSE)>>,
+                            \* the remembered DECCOLM width in its combinations with the mode flag and the current width
+                            <<EvM("sm", <<3>>, TRUE), Ev("resize", <<-1, 5>>)>>,
+                            <<EvM("sm", <<3>>, TRUE), Ev("resize", <<-1, 5>>), EvM("rm", <<3>>, TRUE)>>,
+                            <<EvM("sm", <<3>>, TRUE), Ev("resize", <<-1, 5>>), EvM("rm", <<3>>, TRUE), Ev("resize", <<-1, 132>>)>>,
+                            <<EvM("sm", <<3>>, TRUE), Ev("cup", <<1, 100>>), Ev("decsc", <<>>), EvM("rm", <<3>>, TRUE)>> } } : g \in Geoms }
     [] Model = "C14" ->
          UNION { { [c |-> g[1], l |-> g[2], h |-> Fill(g[1], g[2]) \o a \o b \o cc] :
                    a \in SaveOps, b \in SaveOps, cc \in SaveOps } : g \in Geoms }
@@ -207,10 +222,10 @@ Alphabet == {120, WIDE, COMB, ZWSP, 0, 127, NARROW2}
 Texts == { <<a>> : a \in Alphabet } \cup { <<a, b>> : a \in Alphabet, b \in Alphabet }
          \cup (IF TextLen >= 3 THEN { <<a, b, c>> : a \in Alphabet, b \in Alphabet, c \in {120, WIDE, COMB} } ELSE {})
 ModeNumbers == (0..ModeMax) \cup {96, 160, 192, 224, 800, 1049, 2004, 9999}
-DrawCps == (0..255) \cup {256, 9472, WIDE}
+DrawCps == (0..255) \cup {256, 9472, WIDE} \cup {321, 362, 577, 20033, 65345, 65537, 65601, 65642, 65769, 131072, 131137, 131178}
 SweepParams == (0..40) \cup {63, 64, 65, 127, 128, 129, 255, 256, 257, 299, 300, 301, 511, 512, 513, 1023, 1024, 1025, 4095, 4096, 9998, 9999}
 \* all of 0..900 (ASCII, C1, Latin-1, Latin Extended, IPA, combining diacriticals) and members of the classes further up
-SweepChars == (0..900) \cup {1541, 1564, 2307, 2366, 94192, 4352, 8203, 8204, 8205, 8206, 8232, 8288, 8413, 9786, 12288, 12295, 19968, 44032, 65039, 65279, 65281,
+SweepChars == (0..900) \cup {20033, 65345, 65536, 65601, 65642, 65769, 131072, 131137, 131178, 1541, 1564, 2307, 2366, 94192, 4352, 8203, 8204, 8205, 8206, 8232, 8288, 8413, 9786, 12288, 12295, 19968, 44032, 65039, 65279, 65281,
                              65533, 127462, 128512, 917505, 1114111}
 
 \* a long parameter list: n alternating bold / normal-intensity codes, then a tail whose effect must still arrive
@@ -239,7 +254,7 @@ Events(s) ==
          \cup { Ev(op, <<n>>) : op \in {"el", "ed"}, n \in 0..2 } \cup (IF s.L = 1 THEN { Ev("resize", <<n, m>>) : n \in {-1, 2}, m \in {-1, 1, s.C - 1, s.C + 1} }
                                                                           ELSE { Ev("resize", <<n, m>>) : n \in {-1, 1, s.L - 1, s.L + 1}, m \in {-1, 2} })
     [] Model = "C18all" -> { Ev("ht", <<>>) }
-    [] Model \in {"C18", "C18w"} -> { Ev("ht", <<>>), Ev("hts", <<>>) } \cup { Ev("tbc", <<n>>) : n \in {-1, 0, 1, 2, 3, 4, 9999} }
+    [] Model \in {"C18", "C18w"} -> { Ev("ht", <<>>), Ev("hts", <<>>), Ev("ris", <<>>) } \cup { Ev("tbc", <<n>>) : n \in {-1, 0, 1, 2, 3, 4, 9999} }
     [] Model = "C06" -> { Ev(op, <<>>) : op \in {"ind", "lf", "ri"} }
                         \cup { Ev(op, <<n>>) : op \in {"il", "dl"}, n \in Params(s.L) }
                         \cup { Ev("decstbm", <<a, b>>) : a \in Params(s.L), b \in Params(s.L) }
